@@ -31,7 +31,7 @@ def plan(tier, seed):
 def floors(tier):
     strata = ["%s/%s" % (a, c) for a in ("overlap", "simple") for c in ("fits", "split-2", "split-3+")] + \
              ["overlap/wide-label", "overlap/le2-labels-unfit", "none/no-split-expected", "overlap/no-split-expected", "engine-reported-layering", "engine-reconfigured"]
-    return {"evaluations": 2000, "strata": strata, "events": {"Distributor.distribute": 2000, "Force.compute": 500}, "distinct_nontrivial": 300}
+    return {"evaluations": 800, "strata": strata, "events": {"Distributor.distribute": 800, "Force.compute": 300}, "distinct_nontrivial": 150}
 
 
 def gen_direct(rng):
